@@ -7,7 +7,7 @@ conf = {}
 for log in ("/verif/run/confirm_all.log", "/verif/run/confirm_final.log", "/verif/run/confirm_retry.log"):
     if os.path.exists(log):
         for l in open(log):
-            m = re.match(r"(C\d\d-[AB]): (CONFIRMED|NOT-CONFIRMED|PATCH-DOES-NOT-APPLY|demo_clean=(\d) demo_mut=(\d) suite_mut=(\d))", l)
+            m = re.match(r"(C\d\d-[ABCD]): (CONFIRMED|NOT-CONFIRMED|PATCH-DOES-NOT-APPLY|demo_clean=(\d) demo_mut=(\d) suite_mut=(\d))", l)
             if m:
                 conf.setdefault(m.group(1), []).append(l.strip())
 props = {json.loads(l)["id"]: json.loads(l) for l in open("/verif/properties.jsonl")}
